@@ -65,32 +65,38 @@ def rule_W8(ctx):
             else:
                 ctx.violation("lbuf_wr", "batch append position", "copy goes to %s" % key(c["args"][0]), f.loc(c))
     # read side: the end-of-file indicator is read()'s own result
-    g = prog.func("lbuf_rd", file="lbuf.c")
-    res = None
-    for c in g.calls("read"):
-        par = g.nodes.get(g.parent.get(c["id"]))
+    from .w import read_sites
+    sites = read_sites(prog)
+    if not sites:
+        raise AnalysisBroken("lbuf_rd: read() call not found")
+    for g, rd, rname, top, rtop, topnode in sites:
+        if rname is None:
+            raise AnalysisBroken("%s: read() result variable not found" % g.name)
+        par = g.nodes.get(g.parent.get(rd["id"]))
         while par and par["k"] == "cast":
             par = g.nodes.get(g.parent.get(par["id"]))
-        if par and par["k"] == "bin" and par["op"] == "=" and par["l"]["k"] == "ref":
-            res = (par["l"]["name"], par)
-    if res is None:
-        raise AnalysisBroken("lbuf_rd: read() result variable not found")
-    others = [n for n, lv, op, rhs in stores(g.body)
-              if lv["k"] == "ref" and lv["name"] == res[0] and n["id"] != res[1]["id"] and op != "init"]
-    if others:
-        ctx.violation("lbuf_rd", "end of file is what read() says",
-                      "`%s` overwrites the result of read(): a short read is not the end of the file" % key(others[0]),
-                      g.loc(others[0]))
-    else:
-        ctx.ok("lbuf_rd", "only read() assigns the end-of-file indicator")
-    lp = None
-    for c in g.calls("read"):
-        lp = enclosing(g, c["id"], ("while", "for", "do"))
-    if lp is not None and any(x["k"] in ("break", "goto") for x in walk(lp["body"])):
-        ctx.violation("lbuf_rd", "read loop runs to end of file",
-                      "the read loop can be left by break before read() returned 0", g.loc(lp))
-    elif lp is not None:
-        ctx.ok("lbuf_rd", "the read loop ends only through its condition")
+        others = [n for n, lv, op, rhs in stores(g.body)
+                  if lv["k"] in ("ref", "var") and lv.get("name") == rname and (par is None or n["id"] != par["id"])
+                  and op != "init"]
+        if g is not top and rtop is not None:
+            tpar = top.nodes.get(top.parent.get(topnode["id"]))
+            while tpar and tpar["k"] == "cast":
+                tpar = top.nodes.get(top.parent.get(tpar["id"]))
+            others += [n for n, lv, op, rhs in stores(top.body)
+                       if lv["k"] in ("ref", "var") and lv.get("name") == rtop and
+                       (tpar is None or n["id"] != tpar["id"]) and op != "init"]
+        if others:
+            ctx.violation("lbuf_rd", "end of file is what read() says",
+                          "`%s` overwrites the result of read(): a short read is not the end of the file" % key(others[0]),
+                          g.loc(others[0]))
+        else:
+            ctx.ok("lbuf_rd", "only read() assigns the end-of-file indicator")
+        lp = enclosing(g, rd["id"], ("while", "for", "do"))
+        if lp is not None and any(x["k"] in ("break", "goto") for x in walk(lp["body"])):
+            ctx.violation("lbuf_rd", "read loop runs to end of file",
+                          "the read loop can be left by break before read() returned 0", g.loc(lp))
+        elif lp is not None:
+            ctx.ok("lbuf_rd", "the read loop ends only through its condition")
 
 
 def rule_U5(ctx):
@@ -166,10 +172,21 @@ def rule_X5(ctx):
     ctx.begin("X5", floor=1, what="pattern-address scan vs its success test")
     from ..lin import feasible
     f = ctx.prog.func("ex_search", file="ex.c")
-    cfg = f.cfg
     loop = None
     for c in f.calls(("rstr_find", "rset_find")):
         loop = enclosing(f, c["id"], ("while", "for"))
+    if loop is None:
+        # the scan may sit in a helper of ex_search: the same obligation holds there
+        top = f
+        for c0 in top.calls():
+            g = ctx.prog.resolve(top, c0["fn"]) if c0.get("fn") else None
+            if g is None or g.file != top.file:
+                continue
+            for c in g.calls(("rstr_find", "rset_find")):
+                lp = enclosing(g, c["id"], ("while", "for"))
+                if lp is not None:
+                    f, loop = g, lp
+    cfg = f.cfg
     if loop is None or loop.get("c") is None:
         raise AnalysisBroken("ex_search: scan loop not found")
     # the loop is left either by `break` (a row matched) or because its condition failed
@@ -208,7 +225,7 @@ def rule_X5(ctx):
                 if feasible(hyps + extra):
                     bad = (leaf, r)
     if bad:
-        ctx.violation("ex_search", "scan bound equals the success test",
+        ctx.violation(f.name, "scan bound equals the success test",
                       "after the scan ran out of rows (`%s` false) the function can still return a row: a "
                       "line the scan never tested is reported as a match" % key(bad[0]), f.loc(bad[1]))
     elif n_paths:
